@@ -150,13 +150,30 @@ pub fn classdef(c: &Value) -> Obj {
     o
 }
 
-/// GDEF 1.2: glyph class definition, mark attachment classes, mark glyph sets.
-pub fn gdef(g: &Value) -> Vec<u8> {
+/// How the program's font carries GDEF: "full" (default), "noclassdef" (GDEF table whose
+/// glyphClassDefOffset is NULL), "absent" (no GDEF table at all).
+pub fn gdef_tab(g: &Value) -> &str {
+    g["tab"].as_str().unwrap_or("full")
+}
+
+/// GDEF 1.2: glyph class definition (NULL offset for tab = "noclassdef"), mark attachment classes,
+/// mark glyph sets. `None` when the font has no GDEF table.
+pub fn gdef(g: &Value) -> Option<Vec<u8>> {
+    let tab = gdef_tab(g);
+    if tab == "absent" {
+        return None;
+    }
     let cls = serde_json::json!({"f": 2, "m": g["cls"]});
     let att = serde_json::json!({"f": 1, "m": g["att"]});
     let mut o = Obj::new();
     o.u16(1).u16(2);
-    o.off16(classdef(&cls)).null16().null16().off16(classdef(&att));
+    if tab == "noclassdef" {
+        o.null16();
+    } else {
+        assert_eq!(tab, "full", "unknown gdef.tab");
+        o.off16(classdef(&cls));
+    }
+    o.null16().null16().off16(classdef(&att));
     let sets = arr(&g["sets"]);
     if sets.is_empty() {
         o.null16();
@@ -169,7 +186,7 @@ pub fn gdef(g: &Value) -> Vec<u8> {
         }
         o.off16(s);
     }
-    o.flatten()
+    Some(o.flatten())
 }
 
 fn value_record(o: &mut Obj, vf: i64, v: &Value) {
@@ -452,6 +469,9 @@ pub fn gpos(p: &Value) -> Vec<u8> {
 }
 
 /// kern table, version 0 header. Subtable {f:0, cov, pairs} | {f:2, cov, rw, ao, lt, rt, arr}.
+/// `cov` is the low byte of the coverage field, written bit for bit: 0x01 horizontal (clear =
+/// vertical), 0x02 minimum, 0x04 cross-stream, 0x08 override (0xF0 reserved); the high byte is
+/// the format.
 pub fn kern(k: &Value) -> Vec<u8> {
     let subs = arr(k);
     let mut out: Vec<u8> = Vec::new();
@@ -509,7 +529,9 @@ pub fn kern(k: &Value) -> Vec<u8> {
         let len = 6 + b.len();
         out.extend_from_slice(&0u16.to_be_bytes());
         out.extend_from_slice(&(len as u16).to_be_bytes());
-        let coverage = ((f as u16) << 8) | (int(&st["cov"]) as u16 & 0xFF);
+        let cov = int(&st["cov"]);
+        assert!((0..=0xFF).contains(&cov), "kern coverage byte out of range");
+        let coverage = ((f as u16) << 8) | cov as u16;
         out.extend_from_slice(&coverage.to_be_bytes());
         out.extend(b);
     }
